@@ -463,6 +463,16 @@ fn check_http(r: &mut Report, thorough: bool) {
                 let base = dh(obs, sig);
                 r.exec(1);
                 r.outcome(&("hdr", base));
+                // the analyzers mark some observed headers (Cookie, Referer, Via, ...) as optional; that mark describes the
+                // observation, the signature alone says what may be missing: the distance does not depend on it
+                for mask in [u32::MAX, 0b0101, 0b1010] {
+                    let marked: Vec<Header> = obs.iter().enumerate().map(|(i, h)| Header { optional: mask & (1 << i) != 0, ..h.clone() }).collect();
+                    let dm = dh(&marked, sig);
+                    r.transitions += 1;
+                    if dm != base {
+                        r.dev("C12/http-header-distance-depends-on-the-observed-optional-mark", "http-observed-mark", || json!({"kind": "http-header", "observed": hl(obs), "marked_optional_mask": mask, "signature": hl(sig), "unmarked": base, "marked": dm}));
+                    }
+                }
                 if obs.len() >= 3 && !thorough {
                     continue;
                 }
